@@ -40,9 +40,18 @@ def _tol(t) -> str:
     return f"?{t!r}"
 
 
+def k_explicit(v):
+    """the tolerances written in a ["K", id, value(, rel|None, abs|None)] pattern (None = not given)"""
+    return (v[3] if len(v) > 3 else None, v[4] if len(v) > 4 else None)
+
+
 def k_tols(v):
-    """(rel_tol, abs_tol) of a ["K", id, value(, rel, abs)] pattern"""
-    return (v[3], v[4]) if len(v) >= 5 else (DEFAULT_REL, DEFAULT_ABS)
+    """(rel_tol, abs_tol) a Constant pattern ends up with — the defaults of `Constant.__init__` restated:
+    integer literals are matched exactly (0/0), float literals within 1e-5/1e-8, each tolerance independently"""
+    vals = v[2] if isinstance(v[2], list) else [v[2]]
+    exact = all(isinstance(x, int) and not isinstance(x, bool) for x in vals)
+    rel, ab = k_explicit(v)
+    return ((0.0 if exact else DEFAULT_REL) if rel is None else rel, (0.0 if exact else DEFAULT_ABS) if ab is None else ab)
 
 
 def _n(x):
@@ -178,7 +187,7 @@ def enc_graph(g) -> list[str]:
 # which revision of two repaired spots the model restates (F1: _match_node fails the match on missing outputs,
 # /repo 778bd07; F7a: BacktrackingOr.clone without tag_var, /repo e372708).  Pinned to the repaired, committed
 # revision; c06.check_fixed_findings() reports a VIOLATION if the working tree shows the pre-fix behaviour.
-FLAGS = "111111"
+FLAGS = "111111110"
 
 
 def case_line(mode: str, case, pattern_tokens=None, graph_tokens=None) -> str:
@@ -204,6 +213,8 @@ def build_pattern(p) -> BuiltPattern:
     from onnxscript.rewriter import _pattern_ir as PI
     from onnxscript.rewriter import pattern as P
 
+    if p.get("via") == "callable":
+        return build_pattern_via_callable(p)
     objs: dict = {}
     nodes: list = []
     builders: dict = {}
@@ -232,8 +243,13 @@ def build_pattern(p) -> BuiltPattern:
             o = const_fn(v[2])  # a callable input: _to_value_pattern makes ValuePattern(None, check=f)
             return o  # a fresh ValuePattern object per use (ids are unique by construction)
         elif k == "K":
-            rel, ab = k_tols(v)
-            o = P.Constant(v[2], rel_tol=rel, abs_tol=ab)
+            rel, ab = k_explicit(v)
+            kw = {}
+            if rel is not None:
+                kw["rel_tol"] = rel
+            if ab is not None:
+                kw["abs_tol"] = ab
+            o = P.Constant(v[2], **kw)  # tolerances not written are left to Constant.__init__'s defaults
         elif k == "OR":
             _, vid, name, tagvar, tags, alts = v
             o = P.OrValue([mk(a) for a in alts], name=name, tag_var=tagvar, tag_values=tags)
@@ -279,6 +295,102 @@ def build_pattern(p) -> BuiltPattern:
 def _np_const(data, shape):
     dt = np.int64 if all(float(x).is_integer() for x in data) else np.float64
     return np.array(data, dtype=dt).reshape(shape)
+
+
+def callable_eligible(p) -> bool:
+    """patterns that can be written as a pattern function `def pattern(op, x, y, ...)`: no prefix domain"""
+    return all(n["dom"][0] == "e" for n in p["nodes"]) and all(
+        isinstance(i, str) and i.isidentifier() for i in p["inputs"]) and len(set(p["inputs"])) == len(p["inputs"])
+
+
+def build_pattern_via_callable(p) -> BuiltPattern:
+    """The same pattern through the documented entry point: a pattern *function* handed to `Pattern(...)`, which
+    `_to_graph_pattern` turns into a GraphPattern (parameters become `Var`s, the builder records the nodes, a single
+    returned value is normalised to a list)."""
+    from onnxscript.rewriter import _pattern_ir as PI
+    from onnxscript.rewriter import pattern as P
+
+    state: dict = {}
+
+    def const_fn(b):
+        return lambda context, x: b
+
+    def body(op, params):
+        objs: dict = {}
+        nodes: list = []
+
+        def mk(v):
+            k = v[0]
+            if k == "A":
+                return P.ANY_VALUE
+            if k == "O":
+                return nodes[v[1]].outputs[v[2]]
+            key = (k, v[1])
+            if key in objs:
+                return objs[key]
+            if k == "V":
+                if v[2] in params and not v[3] and v[4] is None:
+                    o = params[v[2]]  # the Var that _to_graph_pattern made for the parameter
+                else:
+                    o = P.Var(v[2], check=None if v[4] is None else const_fn(v[4]), can_match_none=bool(v[3]))
+            elif k == "W":
+                return const_fn(v[2])
+            elif k == "K":
+                rel, ab = k_tols(v)
+                o = P.Constant(v[2], rel_tol=rel, abs_tol=ab)
+            elif k == "OR":
+                _, vid, name, tagvar, tags, alts = v
+                o = P.OrValue([mk(a) for a in alts], name=name, tag_var=tagvar, tag_values=tags)
+            else:
+                raise ValueError(v)
+            objs[key] = o
+            return o
+
+        for n in p["nodes"]:
+            opb = getattr(op, n["op"][1]) if n["op"][0] == "e" else op.submodule(n["op"][1])
+            kwargs = {}
+            for name, a in n["attrs"]:
+                if a[0] == "v":
+                    if a[1] in params and not a[2]:
+                        kwargs[name] = params[a[1]]  # a Var in attribute position: _to_attr_pattern makes an AttrVar
+                    else:
+                        kwargs[name] = P.AttrVar(a[1], can_match_none=bool(a[2]))
+                else:
+                    kwargs[name] = a[1]
+            ins = [None if i is None else mk(i) for i in n["inputs"]]
+            out = opb(
+                *ins,
+                _domain=None if n["dom"][1] == "" else n["dom"][1],
+                _outputs=list(n["outputs"]),
+                _allow_other_attributes=n.get("aoa"),
+                _allow_other_inputs=n.get("aoi"),
+                _check=None if n.get("check") is None else const_fn(n["check"]),
+                **kwargs,
+            )
+            first = out if len(n["outputs"]) == 1 else out[0]
+            nodes.append(first.producer())
+        outs = []
+        for o in p["outputs"]:
+            x = mk(o)
+            if callable(x) and not isinstance(x, PI.ValuePattern):
+                x = PI._to_value_pattern(x)
+            outs.append(x)
+        state["nodes"] = nodes
+        return outs[0] if len(outs) == 1 else outs
+
+    names = list(p["inputs"])
+    src = f"def _pattern(op{''.join(', ' + n for n in names)}):\n    return _body(op, dict({', '.join(f'{n}={n}' for n in names)}))\n"
+    ns = {"_body": body}
+    exec(src, ns)  # noqa: S102 - builds a function with the pattern's parameter names
+    cond = p["cond"]
+    try:
+        pat = P.Pattern(ns["_pattern"], (lambda context, **kw: cond))
+    except NotImplementedError:
+        return BuiltPattern(None, None, {}, err="CTOR-ERR")
+    gp = pat._target_pattern
+    node_index = {id(n): i for i, n in enumerate(state["nodes"])}
+    assert [id(n) for n in gp] == [id(n) for n in state["nodes"]], "builder recorded the nodes in another order"
+    return BuiltPattern(gp, pat, node_index)
 
 
 class BuiltGraph:
